@@ -19,6 +19,12 @@ type C08Row struct {
 	B *Val `json:"b,omitempty"`
 }
 
+type C08Upd struct {
+	Row int    `json:"row"`
+	Col string `json:"col"`
+	V   Val    `json:"v"`
+}
+
 type C08Case struct {
 	EPN     int      `json:"epn"`
 	KeyLast bool     `json:"key_last,omitempty"` // key column declared last instead of first
@@ -27,7 +33,12 @@ type C08Case struct {
 	// Older: rows written by writer 2 for keys of Rows1 (by index), with OLDER write times and
 	// other values: after the merge writer 1's later INSERT must win column by column, so a
 	// column it did not mention, or set to NULL, reads NULL although an older value exists
-	Older   []C08Row `json:"older,omitempty"`
+	Older []C08Row `json:"older,omitempty"`
+	// Updates: UPDATEs of single cells of writer 1's rows, issued by writer 1 after its
+	// INSERTs; half of the new values are derived from the value the cell holds (the same
+	// number in the other numeric representation, -0.0 for 0.0, a neighbour, the same bytes
+	// in the other class): what is written last must be what is read, bit for bit
+	Updates []C08Upd `json:"updates,omitempty"`
 	TxnN    int      `json:"txn_n"`
 	DelN    int      `json:"del_n"` // rows of writer 1 deleted before the vacuum
 	NoSteer bool     `json:"no_steer,omitempty"`
@@ -103,6 +114,39 @@ func genC08Case(t *rapid.T) C08Case {
 			continue
 		}
 		c.Older = append(c.Older, r)
+	}
+	nupd := rapid.IntRange(0, 6).Draw(t, "nupd")
+	cur := map[string]*Val{} // what each cell holds at that point
+	for i := 0; i < nupd && len(c.Rows1) > 0; i++ {
+		ri := rapid.IntRange(0, len(c.Rows1)-1).Draw(t, "updrow")
+		base := c.Rows1[ri]
+		if base.maybeUnstorable() || base.hasEmptyText() {
+			continue
+		}
+		col := rapid.SampledFrom([]string{"a", "b"}).Draw(t, "updcol")
+		ck := fmt.Sprintf("%d.%s", ri, col)
+		if _, ok := cur[ck]; !ok {
+			if col == "a" {
+				cur[ck] = base.A
+			} else {
+				cur[ck] = base.B
+			}
+		}
+		var v Val
+		if old := cur[ck]; old != nil && old.K != "n" && rapid.Bool().Draw(t, "updrelated") {
+			v = related(t, *old, "upd")
+			if old.K == "r" && old.Real() == 0 && rapid.Bool().Draw(t, "negzero") {
+				v = vReal(-old.Real()) // 0.0 <-> -0.0
+			}
+		} else {
+			v = genFidelityVal().Draw(t, "updv")
+		}
+		if v.isEmptyText() || (v.K == "t" && !utf8.Valid(v.Bytes())) {
+			continue
+		}
+		vv := v
+		cur[ck] = &vv
+		c.Updates = append(c.Updates, C08Upd{Row: ri, Col: col, V: v})
 	}
 	c.TxnN = rapid.IntRange(0, 6).Draw(t, "txn")
 	c.DelN = rapid.IntRange(0, 5).Draw(t, "del")
@@ -279,6 +323,26 @@ func runC08(c C08Case, o *Obs) error {
 		if err != nil {
 			return err
 		}
+	}
+	for j, u := range c.Updates {
+		if u.Row >= len(c.Rows1) || (u.Col != "a" && u.Col != "b") {
+			continue
+		}
+		base := c.Rows1[u.Row]
+		if base.maybeUnstorable() || (base.hasEmptyText() && !c.NoSteer) {
+			continue
+		}
+		wt += 3
+		if err := w1.SetWriteTime(baseTime + wt); err != nil {
+			return err
+		}
+		if err := w1.Exec("update "+t1+" set "+u.Col+"=? where k=?", u.V.Arg(), base.K.Arg()); err != nil {
+			return fmt.Errorf("w1 update %d: UPDATE %s=%v of key %v refused: %v", j, u.Col, u.V, base.K, err)
+		}
+		if err := nat.Exec("update n set "+u.Col+"=? where k=?", u.V.Arg(), base.K.Arg()); err != nil {
+			return fmt.Errorf("w1 update %d: harness: native refuses: %v", j, err)
+		}
+		o.Class("cell-updated")
 	}
 	stage = "committed"
 	if err := compare(w1, t1, "after commit"); err != nil {
